@@ -44,8 +44,10 @@ def config(draw):
     return c
 
 
-def run_cmd(cmd, cwd, timeout=300, env=None):
+def run_cmd(cmd, cwd, timeout=300, env=None, want_stdout=False):
     cp = subprocess.run(cmd, cwd=cwd, capture_output=True, text=True, timeout=timeout, env=env, errors="replace")
+    if want_stdout:
+        return cp.returncode, cp.stdout
     return cp.returncode, (cp.stderr or cp.stdout)
 
 
@@ -175,6 +177,7 @@ def build_smallgen(work, model, options):
     npinc = os.path.join(core.VERIF, ".deps", "numpy", "_core", "include")
     if os.path.isdir(npinc):
         incs += ["-I", npinc]
+    objs = []
     for h in gen:
         if re.match(r"^(wrap|types).*\.h$", h):
             for cmd, what in ((["gcc", "-std=c99", "-x", "c"], "C"), (["g++", "-std=c++11", "-x", "c++"], "C++")):
@@ -186,14 +189,35 @@ def build_smallgen(work, model, options):
             if not os.path.isdir(npinc) and "numpy/" in open(os.path.join(outd, src), errors="replace").read():
                 continue      # numpy headers not installed: numpy-using sources are skipped
             cmd = ["g++", "-std=c++11"] if src.endswith(".cpp") else ["gcc", "-std=c99"]
-            rc, err = run_cmd(cmd + ["-fsyntax-only", "-w"] + incs + [src], outd)
+            # the C/Fortran group is compiled to objects (for the symbol closure below), the rest is syntax-checked
+            obj = src.startswith(("wrap", "util"))
+            rc, err = run_cmd(cmd + (["-c", "-o", src + ".o"] if obj else ["-fsyntax-only"]) + ["-w"] + incs + [src], outd)
             if rc != 0:
                 problems.append(("compile:%s" % kind_of_file(src), "%s does not compile: %s" % (src, first_error(err))))
+            elif obj:
+                objs.append(src + ".o")
     fl = os.path.join(work, "ffiles.txt")
     for src in (open(fl).read().split() if os.path.exists(fl) else []):
-        rc, err = run_cmd(["gfortran", "-cpp", "-ffree-form", "-w", "-c", os.path.basename(src)], outd)
+        rc, err = run_cmd(["gfortran", "-cpp", "-ffree-form", "-w", "-c", os.path.basename(src), "-o", os.path.basename(src) + ".o"], outd)
         if rc != 0:
             problems.append(("compile:fortran", "%s does not compile: %s" % (os.path.basename(src), first_error(err))))
+        else:
+            objs.append(os.path.basename(src) + ".o")
+    # link closure of Shroud's own helpers: a helper function (<prefix>Shroud... / <prefix>SHROUD_...) that a
+    # generated object calls must be defined by a generated object (the user's library only defines its own API)
+    if objs and not problems:
+        defined, undefined = set(), {}
+        for o in objs:
+            rc, out = run_cmd(["nm", "-g", o], outd, want_stdout=True)
+            for ln in out.split("\n"):
+                parts = ln.split()
+                if len(parts) >= 2 and parts[-2] in ("T", "D", "B", "R", "W", "V"):
+                    defined.add(parts[-1])
+                elif len(parts) == 2 and parts[0] == "U":
+                    undefined.setdefault(parts[1], o)
+        for sym, o in sorted(undefined.items()):
+            if re.match(r"^[A-Za-z0-9]{1,6}_(Shroud|SHROUD_)", sym) and sym not in defined:
+                problems.append(("link:helper-undefined", "%s calls %s, which no generated file defines" % (o[:-2], sym)))
     return problems
 
 
@@ -322,6 +346,19 @@ def run(ctx):
     if out["problems"]:
         ctx.failure("probe:vector-with-cfi", dict(sg_model=vm, options={"F_CFI": True}, probe=True), observed=out["problems"][0][1],
                     note="std::vector argument with F_CFI: " + out["problems"][0][1])
+    # second probe: struct.rst's own forward-declaration example (methods taking the other class by non-const
+    # reference) with the Python wrapper on
+    pm = dict(library="PairLib", language="c++", options={"wrap_python": True, "wrap_lua": False}, format={}, decls=[
+        dict(kind="raw", yaml={"decl": "class Class1"}),
+        dict(kind="raw", yaml={"decl": "class Class2", "declarations": [{"decl": "Class2()"}, {"decl": "void accept1(Class1 & arg1)"}]}),
+        dict(kind="raw", yaml={"decl": "class Class1", "declarations": [{"decl": "Class1()"}, {"decl": "void accept2(Class2 & arg2)"}]})],
+        raw_header="class Class1;\nclass Class2 { public: Class2(); void accept1(Class1 & arg1); };\n"
+                   "class Class1 { public: Class1(); void accept2(Class2 & arg2); };\n")
+    out = _sg_job((0, pm, {}))
+    ctx.case(label="probe")
+    if out["problems"]:
+        ctx.failure("probe:python-class-reference-inout", dict(sg_model=pm, options={}, probe="python-class-reference-inout"),
+                    observed=out["problems"][0][1], note="class argument by non-const reference with the Python wrapper: " + out["problems"][0][1])
     # (2) corpus
     targets = upstream.target_lists()
     base_jobs = [(nme, "fortran", None) for nme in targets["fortran"]] + [(nme, "c", None) for nme in targets["c"]]
@@ -363,7 +400,8 @@ def replay(ctx, rec):
     elif "sg_model" in c:
         out = _sg_job((0, c["sg_model"], c["options"]))
         for key, note in out["problems"]:
-            ctx.failure("probe:vector-with-cfi" if c.get("probe") else "sg:" + key, c, observed=note, note=note)
+            pk = c.get("probe")
+            ctx.failure(("probe:" + (pk if isinstance(pk, str) else "vector-with-cfi")) if pk else "sg:" + key, c, observed=note, note=note)
     elif "corpus_pylua" in c:
         for key, note in _pylua_job(c["corpus_pylua"])["problems"]:
             ctx.failure(key, c, observed=note, note=note)
